@@ -110,7 +110,8 @@ func (p SignatureProof) AddSignature(sig []byte, key gcrypto.PubKey) error {
 	if _, haveSigP1, _ := p.sigTree.Get(idx); haveSigP1 != (blst.P1Affine{}) {
 		// The signature was non-zero, so now we just compare
 		// the incoming signature against that one.
-		if !gotSigP1.Equals(&haveSigP1) {
+		// Uncompress returns nil for undecodable bytes; a nil point can only differ.
+		if gotSigP1 == nil || !gotSigP1.Equals(&haveSigP1) {
 			// Currently not dumping those compressed bytes,
 			// because we could get numerous invalid signatures.
 			// But we could change this to dump if needed.
@@ -251,7 +252,8 @@ func (p SignatureProof) MergeSparse(s gcrypto.SparseSignatureProof) gcrypto.Sign
 			// We did have the signature; does it match?
 			sig := new(blst.P1Affine)
 			sig = sig.Uncompress(ss.Sig)
-			if !haveSig.Equals(sig) {
+			// Uncompress returns nil for undecodable bytes; a nil point can only differ.
+			if sig == nil || !haveSig.Equals(sig) {
 				res.AllValidSignatures = false
 			}
 		}
